@@ -212,6 +212,23 @@ def check_broadcast_before_use(rep, prog):
                     good_blocks.add(cfg.pos_of(b)[0])
                 else:
                     problems.append('the value received by `%s` is not stored into support[k] before the search' % b.text(40))
+            # nothing may change support[k] between its broadcast and its use: a swap / assignment on some ranks only makes the ranks search
+            # for different witnesses
+            for m in loop.body.walk():
+                tgt = None
+                if m.k == 'CallExpr' and m.callee and m.callee['g'] in ('std::swap', 'std::iter_swap') and len(m.args()) == 2:
+                    if ex.key(m.args()[0]) == skey or ex.key(m.args()[1]) == skey:
+                        tgt = m
+                if m.k == 'CXXOperatorCallExpr' and m.op in ('=', '+=') and len(m.c) == 3 and ex.key(m.c[1]) == skey:
+                    v_ = ex.var_of(m.c[2])
+                    received = any(b2.args() and len(b2.args()) >= 3 and ex.var_of(b2.args()[1]) == v_ and v_ is not None for b2 in bcs)
+                    if not received:
+                        tgt = m
+                if tgt is not None and any(cfg.reaches(b2, tgt) for b2 in bcs) and cfg.reaches(tgt, conv) and not cfg.reaches(conv, tgt) is False:
+                    if cfg.dominates(tgt, conv) or True:
+                        rank_dep = [c_ for (c_, pol_, _b) in cfg.guards_of(tgt) if common.mentions_rank(c_, common.rank_vars_of(fn))]
+                        problems.append('`%s` modifies support[k] after it was broadcast and before the search reads it%s: the ranks no longer search for the same witness' % (
+                            tgt.text(40), (' (only under `%s`)' % rank_dep[0].text(30)) if rank_dep else ''))
             first = cfg.pos_of(loop.body)
             pc = cfg.pos_of(conv)
             if first is None or pc is None:
@@ -403,6 +420,12 @@ def order_of_sequence(prog, fn, seqvar, before_node):
                                         src = d.c[0]
                 fills.append((n, src))
     for n in fn.walk():
+        if n.k == 'CallExpr' and n.callee and n.callee['g'] == 'std::transform' and len(n.args()) == 4:
+            # element-wise conversion keeps the order of the source range
+            dst = n.args()[2].strip_all()
+            if dst.k == 'CallExpr' and dst.callee and dst.callee['name'] in ('back_inserter', 'inserter') and ex.var_of(dst.args()[0]) == seqvar:
+                s0 = n.args()[0].strip_all()
+                fills.append((n, s0.object_arg() if s0.k == 'CXXMemberCallExpr' else None))
         if n.k == 'CallExpr' and n.callee and n.callee['g'] == 'std::copy' and len(n.args()) == 3:
             dst = n.args()[2].strip_all()
             if dst.k == 'CallExpr' and dst.callee and dst.callee['name'] in ('back_inserter', 'inserter') and ex.var_of(dst.args()[0]) == seqvar:
@@ -809,6 +832,8 @@ def run(rep, tier):
     rep.rule('R04a', 'collective matching', floor=5)
     rep.rule('R04b', 'no rank-dependent exit in functions with collectives', floor=3)
     rep.rule('R04g', 'support[k] broadcast before use in every phase', floor=2)
+    rep.rule('R03b', 'joins of the rank-local TBB reductions in the MPI variants are minima with "not found" as identity (shared with C03)', floor=0)
+    rep.rule('R03c', 'reduce bodies of the rank-local TBB reductions fold under the min-update contract (shared with C03)', floor=0)
     rep.rule('R04c', 'rank slices are an exact partition', floor=3)
     rep.rule('R04d', 'sliced sequences are not address-ordered', floor=3)
     rep.rule('R04h', 'no prefix-dependent state inside a rank slice', floor=3)
@@ -831,6 +856,13 @@ def run(rep, tier):
         check_wire(rep, prog)
         check_minop(rep, prog)
         check_forest_order(rep, prog)
+        # the rank-local TBB reductions inside the MPI variants: their joins must be the same minimum (shared with C03)
+        from . import c03
+        sub3 = type(rep)(rep.prop, rep.tier)
+        c03.check_program(sub3, prog)
+        for i in sub3.instances.values():
+            if i.rule in ('R03b', 'R03c') and '/mpi/' in (i.site or ''):
+                rep.add(i.rule, i.site, i.function, i.what, i.status, i.detail, key=i.key)
         F = phase.analyse(prog)
         phase.report(rep, F, ['R01d'])
         # the support-vector update of the MPI siblings (shared with C01): rank 0 must orthogonalise against the cycle it emits
